@@ -154,6 +154,8 @@ class TRun(Run):
 
     def oblig(self, cond, role, desc):
         I = self.I
+        if self.cfg.oracles:
+            return  # run under a flow oracle (C03): the timing obligations are C19's subject
         self.res.obligations += 1
         neg = z3.Not(cond)
         if I.check_sat(neg):
@@ -171,6 +173,8 @@ class TRun(Run):
 
     def viol(self, role, desc, detail=None):
         I = self.I
+        if self.cfg.oracles and role.startswith("timeout:"):
+            return  # run under a flow oracle (C03): firing rules are C19's subject
         m = I.model()
         model = {k: str(m.eval(v, model_completion=True)) for k, v in self.sym.items()} if m is not None else {}
         self.res.violations.append(Violation(self.prop, role, desc, self.name, dict(decisions=list(I.path.taken), events=[e["event"] for e in self.log], rules=self.rules,
